@@ -1590,22 +1590,26 @@ func (s *expSession) seqCheck() {
 			// counter, so the jump may be the sum of any of them (not only of the earliest ones: a
 			// refused set and a set whose write failed can follow each other)
 			ne := 0
-			for ne < len(pend) && ne < 12 && !((byTime && w.At.Before(pend[ne].t0)) || (!byTime && i < pend[ne].w0)) {
+			for ne < len(pend) && !((byTime && w.At.Before(pend[ne].t0)) || (!byTime && i < pend[ne].w0)) {
 				ne++
 			}
-			for mask := 1; mask < 1<<ne; mask++ {
-				sum, last := uint32(0), 0
-				for k := 0; k < ne; k++ {
-					if mask>>k&1 == 1 {
-						sum += pend[k].n
-						last = k
+			// (sums reachable with the first k+1 attempts; an application may go on handing in sets that are
+			// refused - a dozen and more - before the one whose write fails)
+			if target := w.Msg.Header.Sequence - own - cur; target != 0 {
+				reach := map[uint32]bool{0: true}
+				for k := 0; k < ne && len(reach) < 1<<16; k++ {
+					next := make(map[uint32]bool, 2*len(reach))
+					for v := range reach {
+						next[v] = true
+						next[v+pend[k].n] = true
 					}
-				}
-				if sum != 0 && w.Msg.Header.Sequence-own == cur+sum {
-					cur += sum
-					pend = pend[last+1:]
-					s.env.Count("probe.sequence_rebased_after_failed_attempt", 1)
-					break
+					reach = next
+					if reach[target] {
+						cur += target
+						pend = pend[k+1:]
+						s.env.Count("probe.sequence_rebased_after_failed_attempt", 1)
+						break
+					}
 				}
 			}
 		}
